@@ -238,7 +238,7 @@ def builtin_matrix(registry):
 ARITH_TOKENS = ["0", "1", "2", "(", ")", "+", "-", "*", "/", "%", "**", "//", " "]
 DEGENERATE = ["", " ", "()", "( )", "(())", "(1+)", "(+1)", "(1 2)", "1 2", "(1%0)", "1%0", "1/0", "1//0", "1\\0", "(1/0)", "0/0", "0**-1", "0**0",
               "9**9**9", "(9**9)**9", "9**(9**9)", "2**99999999", "2**9999", "10**4300", "10**4299", "99**4000", "-2**99999999",
-              "(-2)**99999999", "1**99999999999", "0**99999999999", "(-1)**99999999999", "2**-99999999", "(1/3)**-9999", "(1/2)**9999",
+              "(-2)**99999999", "3**99999999", "(-3)**99999999", "(0-7)**77777777", "1**99999999999", "0**99999999999", "(-1)**99999999999", "2**-99999999", "(1/3)**-9999", "(1/2)**9999",
               "10**400/3", "10**400*1.5", "10**400/10**399", "(-8)**(1/3)", "(-8)**0.5", "((-8)**(1/2))%2", "((-8)**(1/2))//1", "2**0.5",
               "1e5", "1e999", "1e999-1e999", "1.5", "1.", ".5", "007", "0x10", "0b1", "1_000", "1j", "1 if 1 else 2", "1,2", "(1,2)", "[1]",
               "{1}", "a", "x+1", "$i", "$i+", "N", "-", "--", "---1", "-(-(-1))", "+", "++1", "~1", "1<<2", "1>>2", "1&2", "1|2", "1^2",
@@ -316,7 +316,7 @@ def stress(tier: str):
         out.append((name, size, dict(src=src, header=header, pack_format=None)))
 
     rep = 'Hardcode.repeat((i) => { say "Hardcode.calc(%s)"; }, start=1, stop=2);'
-    pows = ["9**9**9", "2**999999999", "(2**9999)**9999", "1" + "*9**4507" * 300, "10**10**10", "2**(2**40)", "-2**2**31", "3**3**3**3",
+    pows = ["9**9**9", "(-3)**999999999", "(2**9999)**9999", "1" + "*9**4507" * 300, "2**999999999", "10**10**10", "2**(2**40)", "-2**2**31", "3**3**3**3",
             "7**77777777%5", "2**2**2**2**2**2", "(9**9999)*(9**9999)*(9**9999)*(9**9999)", "9" * 20000, "2" + "**2" * 8]
     for e in pows[:4 if tier == "quick" else None]:      # (every one that hangs costs a whole alarm)
         add("pow:calc:" + e[:24], len(e), rep % e)
@@ -387,8 +387,11 @@ def quick_sample(stream: str, items: list, rng) -> list:
             quota = 10
         else:   # arithmetic
             if cell[1] == "degenerate" and _HUGE_POWER.search(job["src"] + (job["header"] or "")):
-                # candidates for an unbounded power: each costs a whole alarm where it hangs - two sites per expression
-                huge.setdefault(cell[2], []).append(it)
+                # candidates for an unbounded power: each costs a whole alarm where it hangs - three sites per expression,
+                # one Hardcode.calc site, one EVAL site, one `:=` site (the sites that evaluate)
+                fam = "calc" if cell[0].startswith("calc") else "eval" if cell[0].startswith("eval") else "expr" if cell[0].startswith("expr") else None
+                if fam:
+                    huge.setdefault((job["src"].count("*") and cell[2], fam), []).append(it)
                 continue
             always = cell[1] == "degenerate" or (cell[1] == "exhaustive" and isinstance(cell[2], int) and cell[2] <= 2)
             key = (cell[0], cell[1])
@@ -398,9 +401,9 @@ def quick_sample(stream: str, items: list, rng) -> list:
         else:
             cells.setdefault(key, (quota, []))[1].append(it)
     extra = []
-    for n, key in enumerate(sorted(huge)):
+    for n, key in enumerate(sorted(huge, key=str)):
         members = huge[key]
-        extra += [members[n % len(members)], members[(n + len(members) // 2) % len(members)]]
+        extra.append(members[n % len(members)])
     for key in sorted(cells, key=str):
         quota, members = cells[key]
         extra += rng.sample(members, min(quota, len(members)))
